@@ -87,6 +87,9 @@ type Obj struct {
 	typ  types.Type
 	site string // allocation site (for C20 and diagnostics)
 	heap bool
+	// C20: operation that allocated the object, and whether a pointer to it has been stored into shared memory since
+	allocOp   string
+	published bool
 }
 
 type ChanObj struct {
